@@ -63,6 +63,11 @@ CURATED = [
     # _root seen from an outermost nested context
     "Sequence('n'/Byte, 'd'/Bytes(this._root.n & 3), 't'/Byte)", "Array(2, Sequence('n'/Byte, 'd'/Bytes(this._root.n & 1)))", "Struct('n'/Byte, 'd'/Bytes(this._root.n & 3))",
     "IfThenElse(this._params.n == 1, Sequence('n'/Byte, 'd'/Bytes(this._root.n & 1)), Byte)", "Struct('k'/Byte, 'v'/Bytes(this._params.n), 's'/Sequence('n'/Byte, 'd'/Bytes(this._root.k & 1)))",
+    # adapters and validators (linked or inlined by the compiler)
+    "Struct('a'/ExprAdapter(Byte, decoder=obj_ + 1, encoder=obj_ - 1), 'd'/Bytes(this.a & 3))", "ExprSymmetricAdapter(Int16ub, obj_ ^ 0x55)", "Struct('v'/ExprValidator(Byte, obj_ < 200), 't'/Byte)",
+    "Slicing(Array(4, Byte), 4, 1, 3, empty=0)", "Indexing(Array(3, Byte), 3, 1, empty=0)", "Struct('f'/Filter(obj_ != 0, Byte[3]), 't'/Byte)", "Struct('o'/OneOf(Byte, [1, 2, 3]), 'n'/NoneOf(Byte, [0]), 'd'/Bytes(this.o))",
+    "Struct('t'/Timestamp(Int32ub, 1, 1970) if False else Computed(1), 'x'/Byte)", "Struct('a'/Byte, 'b'/Rebuild(Byte, this.a ^ 0xFF), Check(this.a + this.b == 255), 'c'/Byte)",
+    "Struct('n'/NamedTuple('pt', 'x y', Byte[2]), 'd'/Bytes(this.n.x & 1))", "FocusedSeq('v', 'len'/Rebuild(Byte, len_(this.v)), 'v'/Bytes(this.len & 3), Terminated) if False else FocusedSeq('v', 'len'/Rebuild(Byte, len_(this.v)), 'v'/Bytes(this.len & 3))",
     # offsets observed inside delimited regions (absolute in the interpreter)
     "Struct('h'/Byte, 'p'/Prefixed(Byte, Struct('a'/Byte, 't'/Tell, 'g'/GreedyBytes)), 'z'/Tell)", "Struct('h'/Byte, 'f'/FixedSized(3, Struct('t'/Tell, 'r'/RawCopy(Byte), 'g'/GreedyBytes)), 'z'/Byte)",
     "Struct('h'/Byte, 'p'/Prefixed(Byte, Prefixed(Byte, Struct('t'/Tell, 'g'/GreedyBytes))))", "Struct('h'/Int16ub, 'p'/Prefixed(Byte, Struct('q'/Pointer(1, Byte), 'g'/GreedyBytes), includelength=True))",
